@@ -22,7 +22,8 @@ OneKillMs(o) ==
   (IF o.behaviour = "frozen" THEN CloseBlockMs(o) ELSE 0)
   + (IF o.behaviour \in {"ignore", "frozen"} THEN GraceMs ELSE IF o.behaviour = "delay" THEN o.delay_ms ELSE 0)
   + (IF o.launch \in {"reattach", "foreign"} THEN 1000 ELSE 0)   \* the reattached client polls the pid once a second
-MarkerExpected(o) == o.behaviour \in {"prompt", "busy", "delay"}
+\* (brokerbusy_h / brokerbusy_p: a prompt plugin with a call in flight on a brokered connection, served by the host / by the plugin)
+MarkerExpected(o) == o.behaviour \in {"prompt", "busy", "delay", "brokerbusy_h", "brokerbusy_p"}
 
 Conforms(o) ==
   /\ o.out.start_ok /\ ~o.out.panic
